@@ -2,6 +2,7 @@ import Gnet.Driver.Util
 import Gnet.Gen.Arith
 import Gnet.Model.Gfd
 import Gnet.Model.Options
+import Gnet.Model.Url
 namespace Gnet.Driver.ArithD
 open Gnet
 
@@ -45,17 +46,35 @@ def step (_ : Unit) (ws : List String) : Option (Unit × String) :=
         ok s!"fd={g.fd.toInt} el={g.eventLoopIndex.toInt} row={g.row.toInt} col={g.column.toInt}"
       | _, _, _, _ => ok "bad-op"
     else ok "bad-op"
-  | ["parse", _addr, uerr, sch, host, path, joined] =>
-    match bytesOfHex sch, bytesOfHex host, bytesOfHex path, bytesOfHex joined with
-    | some sch, some host, some path, some joined =>
-      let str (l : List Nat) : String := String.ofList (l.map (fun b => Char.ofNat b))
+  | ["parse", addr, uerr, sch, host, path, joined] =>
+    match bytesOfHex addr, bytesOfHex sch, bytesOfHex host, bytesOfHex path, bytesOfHex joined with
+    | some addr, some sch, some host, some path, some joined =>
+      let chars (l : List Nat) : List Char := l.map (fun b => Char.ofNat b)
+      let str (l : List Nat) : String := String.ofList (chars l)
       let u : Options.UrlParts := ⟨uerr == "1", str sch, str host, str path, str joined⟩
-      ok (match Options.dispatch u with
+      let reply (r : Options.ParseResult) : String :=
+        match r with
         | .ok s e => s!"r=ok scheme={s} ep={hexOfBytes (e.toList.map (·.toNat))}"
         | .urlError => "r=err:url"
         | .invalidAddress => "r=err:invalid"
-        | .unsupportedProtocol => "r=err:unsupported")
-    | _, _, _, _ => ok "bad-op"
+        | .unsupportedProtocol => "r=err:unsupported"
+      -- the model of url.Parse / path.Join, run on the address alone, against the recorded fields
+      let mismatch : Option String :=
+        match Url.urlParse (Url.escapePercent (chars addr)) with
+        | .error => if u.err then none else some "model says url.Parse fails, it succeeded"
+        | .ok ms mh mp =>
+          if u.err then some "model says url.Parse succeeds, it failed"
+          else if ms ≠ chars sch then some s!"scheme {hexOfBytes (ms.map (·.toNat))}"
+          else if mh ≠ chars host then some s!"host {hexOfBytes (mh.map (·.toNat))}"
+          else if mp ≠ chars path then some s!"path {hexOfBytes (mp.map (·.toNat))}"
+          else if Url.pathJoin2 mh mp ≠ chars joined then
+            some s!"joined {hexOfBytes ((Url.pathJoin2 mh mp).map (·.toNat))}"
+          else if Url.parseProtoAddrL (chars addr) ≠ Options.dispatch u then some "result"
+          else none
+      ok (match mismatch with
+        | some why => s!"MISMATCH url-model: {why}"
+        | none => reply (Options.dispatch u))
+    | _, _, _, _, _ => ok "bad-op"
   | ["gfdupd", fd, el, row, col, row2, col2] =>
     match bv fd, bv el, bv row, bv col, bv row2, bv col2 with
     | some fd, some el, some row, some col, some row2, some col2 =>
